@@ -97,6 +97,8 @@ mod deferred_reader;
 mod deferred_writer;
 mod parser;
 pub mod text;
+#[cfg(flussab_verif)]
+pub mod verif;
 pub mod write;
 
 pub use deferred_reader::DeferredReader;
